@@ -51,3 +51,19 @@ Theorem C03_intersection_total : forall (Q1 Q2 : Type) (E1 : EqDec Q1) (E2 : EqD
   forall n, (3 * (length (e_states A) * length (e_states B)) < 2 ^ n)%nat -> exists P, intersection A B n = Some P.
 Proof. exact (@intersection_total). Qed.
 Print Assumptions C03_intersection_total.
+
+(* union / concatenate / kleene_star as pyformlang computes them (regexable.py): to_regex, the Regex combinator, to_epsilon_nfa —
+   the composition of the proved models of the two conversions (Model/Kleene.v, Model/Thompson.v) has the intended language *)
+From PFL Require Import Model.Kleene Model.Thompson Proofs.Rational.
+Theorem C03_union_code_path : forall (Q1 Q2 : Type) (E1 : EqDec Q1) (E2 : EqDec Q2) (A : enfa Q1) (B : enfa Q2) (w : list N),
+  wf A -> wf B -> (Lang (union_model A B) w <-> Lang A w \/ Lang B w).
+Proof. exact (@union_model_lang). Qed.
+Print Assumptions C03_union_code_path.
+Theorem C03_concatenate_code_path : forall (Q1 Q2 : Type) (E1 : EqDec Q1) (E2 : EqDec Q2) (A : enfa Q1) (B : enfa Q2) (w : list N),
+  wf A -> wf B -> (Lang (concat_model A B) w <-> exists u v, w = u ++ v /\ Lang A u /\ Lang B v).
+Proof. exact (@concat_model_lang). Qed.
+Print Assumptions C03_concatenate_code_path.
+Theorem C03_kleene_star_code_path : forall (Q1 : Type) (E1 : EqDec Q1) (A : enfa Q1) (w : list N),
+  wf A -> (Lang (star_model A) w <-> lstar (Lang A) w).
+Proof. exact (@star_model_lang). Qed.
+Print Assumptions C03_kleene_star_code_path.
